@@ -83,6 +83,32 @@ var ruleTar = &core.Rule{ID: "R18.1", Min: 8,
 				}
 			}
 		}
+		// the guard must be exact: one full record suffices (a header cut by a limit of 512 is still a tar header)
+		if guard {
+			lens := lenCallsOf(f, raw)
+			for _, n := range []int64{tarBlock - 1, tarBlock, tarBlock + 1} {
+				ev := newEval(c)
+				ev.Env = fde.Env{}
+				for _, l := range lens {
+					ev.Env[l] = constant.MakeInt64(n)
+				}
+				exits, err := ev.Walk(f.Blocks[0], nil, func(b *ssa.BasicBlock) bool { return b == m.chk.Block() || b == m.octal.Block() }, 4)
+				if err != nil {
+					continue
+				}
+				reaches := false
+				for _, x := range exits {
+					if x.Stop != nil {
+						reaches = true
+					}
+				}
+				want := n >= tarBlock
+				if reaches != want {
+					guard = false
+					s.Bad(fmt.Sprintf("length guard at len=%d", n), c.Pos(f.Pos()), fmt.Sprintf("with a header of %d bytes the checksum comparison is %s; a tar header is exactly one 512-byte record, so 512 bytes must suffice and fewer must not", n, map[bool]string{true: "reached", false: "not reached"}[reaches]))
+				}
+			}
+		}
 		s.Check(guard, "needs a full 512-byte record", c.Pos(f.Pos()), "len(raw) >= 512 dominates the checksum", "the checksum is computed without a dominating len(raw) >= 512 guard")
 		// R18.2 parse window
 		okWin := m.window != nil && m.window.X == m.block && core.IsConstInt(m.window.Low, tarChkLo) && core.IsConstInt(m.window.High, tarChkHi)
